@@ -383,14 +383,16 @@ func (e *Exec) step(f []string) {
 		sec, _ := strconv.ParseInt(f[7], 10, 64)
 		e.cfg = config{kind: f[1], maxLinks: vh.Atoi(f[2]), fanout: vh.Atoi(f[3]), pmode: f[4], pthr: vh.Atoi(f[5]),
 			statMode: uint32(st), sec: sec, nsec: vh.Atoi(f[8]), builder: f[9]}
-		e.dserv = mdtest.Mock()
+		e.plain = mdtest.Mock()
 		for i := range Pool {
-			e.dserv.Add(e.ctx, Pool[i].Node)
+			e.plain.Add(e.ctx, Pool[i].Node)
 		}
+		// every directory works through the fault-injecting wrapper (inert until `fault` / `faultreload`)
+		e.fault = &faultDS{DAGService: e.plain}
+		e.dserv = e.fault
 		e.oracle = map[string]string{}
 		e.aboveBefore = false
 		e.belowMaxlinks = false
-		e.fault, e.plain = nil, nil
 		d, err := e.cfg.build(e.dserv)
 		if err != nil {
 			e.d = nil
@@ -433,7 +435,7 @@ func (e *Exec) step(f []string) {
 			o.Kind("add-" + r)
 			// map property: adding can only fail for the documented reasons
 			switch {
-			case r == "fault" && e.fault != nil:
+			case r == "fault" && e.faultActive():
 			case r == "maxlinks" && kb == "hamt":
 				o.Fail("hamt-switch-maxlinks", "AddChild(%q) on a HAMT directory failed with maxLinks reached (aborted HAMT->basic conversion)", name)
 			case r == "maxlinks" && kb == "basic" && !existed && !(before.maxLinks > 0 && len(e.oracle)+1 > before.maxLinks):
@@ -458,7 +460,7 @@ func (e *Exec) step(f []string) {
 		r := errTok(err)
 		_, existed := e.oracle[name]
 		switch {
-		case r == "fault" && e.fault != nil:
+		case r == "fault" && e.faultActive():
 		case r == "maxlinks" && kb == "hamt":
 			o.Fail("hamt-switch-maxlinks", "RemoveChild(%q) on a HAMT directory failed with maxLinks reached (aborted HAMT->basic conversion)", name)
 		case existed && err != nil:
@@ -484,7 +486,7 @@ func (e *Exec) step(f []string) {
 		nd, err := e.d.Find(e.ctx, name)
 		want, existed := e.oracle[name]
 		if err != nil {
-			if e.fault != nil && errTok(err) == "fault" {
+			if e.faultActive() && errTok(err) == "fault" {
 				o.Kind("find-fault")
 				o.Emit("fault")
 				return
@@ -509,7 +511,7 @@ func (e *Exec) step(f []string) {
 		ls, err := e.d.Links(e.ctx)
 		if err != nil {
 			// enumeration APIs: either an error is reported or the listing is the complete map
-			if !(e.fault != nil && errTok(err) == "fault") {
+			if !(e.faultActive() && errTok(err) == "fault") {
 				o.Fail("listing-links", "Links: %v", err)
 			}
 			o.Kind("list-" + errTok(err))
@@ -533,7 +535,7 @@ func (e *Exec) step(f []string) {
 			es = append(es, entry{r.Link.Name, r.Link.Cid.String(), r.Link.Size})
 		}
 		if ferr != nil {
-			if !(e.fault != nil && errTok(ferr) == "fault") {
+			if !(e.faultActive() && errTok(ferr) == "fault") {
 				o.Fail("listing-async", "EnumLinksAsync: %v", ferr)
 			}
 			o.Kind("async-" + errTok(ferr))
@@ -552,7 +554,7 @@ func (e *Exec) step(f []string) {
 			return nil
 		})
 		if err != nil {
-			if !(e.fault != nil && errTok(err) == "fault") {
+			if !(e.faultActive() && errTok(err) == "fault") {
 				o.Fail("listing-each", "ForEachLink: %v", err)
 			}
 			o.Kind("each-" + errTok(err))
@@ -624,11 +626,7 @@ func (e *Exec) step(f []string) {
 		where := "-"
 		if len(subs) > 0 {
 			k := vh.Atoi(f[1]) % len(subs)
-			if e.plain == nil {
-				e.plain = e.dserv
-			}
-			e.fault = &faultDS{DAGService: e.plain, bad: subs[k]}
-			e.dserv = e.fault
+			e.fault.bad = subs[k]
 			where = paths[k]
 			o.Kind("fault-injected")
 		}
@@ -642,6 +640,34 @@ func (e *Exec) step(f []string) {
 		e.cfg.kind = "dyn"
 		e.cfg.maxLinks, e.cfg.fanout, e.cfg.pmode, e.cfg.pthr = 0, 0, "-", 0
 		o.Emit("ok fault=%s | %s", where, e.state(false))
+	case "fault":
+		// make the k-th sub-shard block (DFS pre-order of the current serialisation) unavailable from now on,
+		// without reloading: only a sub-shard that is still an unloaded link in memory is affected
+		if !e.need() {
+			return
+		}
+		nd, err := e.d.GetNode()
+		if err != nil {
+			o.Emit("%s", errTok(err))
+			return
+		}
+		var subs []cid.Cid
+		var paths []string
+		collectSubShards(e.ctx, e.plainDS(), nd, "", &subs, &paths)
+		where := "-"
+		if len(subs) > 0 {
+			k := vh.Atoi(f[1]) % len(subs)
+			e.fault.bad = subs[k]
+			where = paths[k]
+			o.Kind("fault-injected-live")
+		}
+		o.Emit("ok fault=%s", where)
+	case "unfault":
+		if !e.need() {
+			return
+		}
+		e.fault.bad = cid.Undef
+		o.Emit("ok")
 	case "setmaxlinks":
 		if !e.need() {
 			return
@@ -1096,8 +1122,10 @@ type faultDS struct {
 	bad cid.Cid
 }
 
+func (e *Exec) faultActive() bool { return e.fault != nil && e.fault.bad.Defined() }
+
 func (f *faultDS) Get(ctx context.Context, c cid.Cid) (ipld.Node, error) {
-	if c.Equals(f.bad) {
+	if f.bad.Defined() && c.Equals(f.bad) {
 		return nil, errFault
 	}
 	return f.DAGService.Get(ctx, c)
@@ -1119,12 +1147,7 @@ func (f *faultDS) GetMany(ctx context.Context, cs []cid.Cid) <-chan *ipld.NodeOp
 	return out
 }
 
-func (e *Exec) plainDS() ipld.DAGService {
-	if e.plain != nil {
-		return e.plain
-	}
-	return e.dserv
-}
+func (e *Exec) plainDS() ipld.DAGService { return e.plain }
 
 // collectSubShards lists the sub-shard links of a serialised HAMT in DFS pre-order with their
 // slot-index paths ("3.5").
